@@ -102,6 +102,29 @@ pub async fn run_suite(seed: u64, cases: usize) -> String {
       if live.len() < 2 || choice < 2 {
         // a new connection (a second one for the same user when the modulator authenticates)
         let u = *r.pick(USERS);
+        if auth && r.chance(1, 3) {
+          // two connections of one user, accepted in one order and authenticated in the other (the router lists a user's
+          // connections in authentication order, their handlers are assigned at accept time)
+          let k1 = srv.open();
+          let k2 = srv.open();
+          for k in [k1, k2] {
+            srv.send(k, &Req::Connect { version: 1, hb: 0 }.wire().unwrap()).await;
+          }
+          srv.quiesce(1).await;
+          for k in [k2, k1] {
+            srv.modulator.as_ref().unwrap().script.lock().unwrap().auth = AuthS::Success(u.to_string());
+            srv.send(k, &Req::Auth { token: "t".into() }.wire().unwrap()).await;
+            srv.quiesce(1).await;
+            let got = srv.collect().await;
+            if let Some((frames, _)) = got.get(&k) {
+              if frames.iter().any(|f| matches!(&f.msg, Message::AuthAck(p) if p.succeeded == Some(true))) {
+                users.insert(k, u.to_string());
+              }
+            }
+          }
+          *stats.entry("open-pair-reversed".into()).or_insert(0) += 1;
+          continue;
+        }
         let k = srv.open();
         srv.send(k, &Req::Connect { version: 1, hb: 0 }.wire().unwrap()).await;
         srv.quiesce(1).await;
